@@ -16,6 +16,12 @@ package main
 // Fourth generation: float64 values over the exact software double of Model/F64.lean
 // (+ - * / and comparisons, float64(int), int64(float), Duration.Seconds, constant operands
 // folded exactly as the Go compiler does), and calls of leaves of other packages.
+// Fifth generation: methods with a pointer receiver that assign to the receiver's fields — the
+// receiver is threaded through and returned as the first component of the result —, named and
+// multiple results, `var` declarations (zero values), constants declared inside the body,
+// math.Sqrt, calls of such methods on the same receiver, and external functions whose value is
+// an input of the model (timebase.Epoch(): an extra parameter, one value per call of the leaf).
+// Blocks that only log (`if x.log != nil { … }`) are skipped.
 // Anything else is reported as a broken tie.
 
 import (
@@ -66,6 +72,11 @@ var leaves = []leafSpec{
 	{"base/unixutil", "ScaledPPMFromFreq", "unixutil_ScaledPPMFromFreq"},
 	{"base/unixutil", "FreqFromScaledPPM", "unixutil_FreqFromScaledPPM"},
 	{"driver/clocks", "SystemClock.Drift", "clocks_SystemClock_Drift"},
+	// fifth generation: methods that update their receiver (the new receiver value is returned
+	// with the result), named results, multiple results, values of external functions as parameters
+	{"core/client", "combine", "client_combine"},
+	{"core/client", "NtimedFilter.Reset", "client_NtimedFilter_Reset"},
+	{"core/client", "NtimedFilter.Do", "client_NtimedFilter_Do"},
 }
 
 // leaves callable from other packages as pkg.Func (filled while emitting, in table order)
@@ -90,6 +101,13 @@ type leafCtx struct {
 	nfresh  int
 	leafOf  map[string]string // "Recv.Name" / "Name" in this dir -> lean name
 	retOf   map[string]string
+
+	zeroVars bool                // `var x T` introduces x with its zero value (fifth generation)
+	recv     string              // name of a pointer receiver whose fields the body assigns ("" = none)
+	externs  []string            // "name : Type" of external values the body reads (extra parameters)
+	named    []string            // named results, in order
+	extOf    map[string][]string // leaf name -> its extern parameter names
+	recvOf   map[string]bool     // leaf name -> returns the updated receiver first
 }
 
 func (c *leafCtx) fail(format string, a ...any) {
@@ -169,6 +187,8 @@ func (c *leafCtx) isValue(e ast.Expr) bool {
 		return ok
 	case *ast.ParenExpr:
 		return c.isValue(x.X)
+	case *ast.BinaryExpr:
+		return c.isValue(x.X) || c.isValue(x.Y)
 	case *ast.SelectorExpr:
 		return c.isValue(x.X)
 	case *ast.CallExpr:
@@ -196,6 +216,73 @@ func convType(fun ast.Expr) string {
 		return convType(f.X)
 	}
 	return ""
+}
+
+func (c *leafCtx) addExtern(name, typ string) {
+	for _, e := range c.externs {
+		if e == name+" : "+typ {
+			return
+		}
+	}
+	c.externs = append(c.externs, name+" : "+typ)
+}
+
+// zeroOf: the zero value of a translated type
+func zeroOf(t string) string {
+	switch {
+	case t == "F64":
+		return "(F64.ofInt 0)"
+	case t == "Bool":
+		return "false"
+	case isIntType(t):
+		return "(0 : " + t + ")"
+	}
+	return ""
+}
+
+// isLogOnly: `if x.log != nil { x.log.LogAttrs(…) }` — logging has no effect on the model
+func isLogOnly(st *ast.IfStmt) bool {
+	be, ok := st.Cond.(*ast.BinaryExpr)
+	if !ok || be.Op != token.NEQ || st.Else != nil {
+		return false
+	}
+	sel, ok := be.X.(*ast.SelectorExpr)
+	if !ok || sel.Sel.Name != "log" {
+		return false
+	}
+	if id, ok := be.Y.(*ast.Ident); !ok || id.Name != "nil" {
+		return false
+	}
+	for _, s := range st.Body.List {
+		es, ok := s.(*ast.ExprStmt)
+		if !ok {
+			return false
+		}
+		ce, ok := es.X.(*ast.CallExpr)
+		if !ok {
+			return false
+		}
+		f, ok := ce.Fun.(*ast.SelectorExpr)
+		if !ok || !strings.HasPrefix(f.Sel.Name, "Log") {
+			return false
+		}
+	}
+	return true
+}
+
+// result: what a return hands back — the updated receiver first when the method assigns to it
+func (c *leafCtx) result(e string) string {
+	if c.recv != "" {
+		if e == "" {
+			e = c.recv
+		} else {
+			e = "(" + c.recv + ", " + e + ")"
+		}
+	}
+	if c.panics {
+		return "some (" + e + ")"
+	}
+	return e
 }
 
 // mentionsVar reports whether e refers to a variable of the function being translated.
@@ -285,6 +372,9 @@ func (c *leafCtx) expr(e ast.Expr, want string) (string, string) {
 		return c.expr(x.X, want)
 	case *ast.BasicLit:
 		v := constant.MakeFromLiteral(x.Value, x.Kind, 0)
+		if x.Kind == token.FLOAT && want == "" {
+			want = "F64" // an untyped float constant defaults to float64
+		}
 		return c.lit(v, want), want
 	case *ast.Ident:
 		if t, ok := c.vars[x.Name]; ok {
@@ -422,6 +512,22 @@ func (c *leafCtx) expr(e ast.Expr, want string) (string, string) {
 				}
 			}
 		}
+		if f, ok := x.Fun.(*ast.SelectorExpr); ok {
+			if id, ok := f.X.(*ast.Ident); ok && !c.isValue(f.X) {
+				switch id.Name + "." + f.Sel.Name {
+				case "math.Sqrt":
+					if len(x.Args) == 1 {
+						a, _ := c.expr(x.Args[0], "F64")
+						return "(F64.sqrt " + a + ")", "F64"
+					}
+				case "timebase.Epoch":
+					if len(x.Args) == 0 {
+						c.addExtern("ext_Epoch", "UInt64")
+						return "ext_Epoch", "UInt64"
+					}
+				}
+			}
+		}
 		name := ""
 		var args []string
 		switch f := x.Fun.(type) {
@@ -443,6 +549,13 @@ func (c *leafCtx) expr(e ast.Expr, want string) (string, string) {
 		for _, a := range x.Args {
 			s, _ := c.expr(a, "")
 			args = append(args, s)
+		}
+		for _, e := range c.extOf[name] {
+			c.addExtern(e, "UInt64")
+			args = append(args, e)
+		}
+		if c.recvOf[name] {
+			c.fail("call of a receiver-updating method inside an expression")
 		}
 		return "(" + ln + " " + strings.Join(args, " ") + ")", c.retOf[name]
 	case *ast.BinaryExpr:
@@ -579,6 +692,20 @@ func assigned(stmts []ast.Stmt, set map[string]bool) {
 				if id, ok := l.(*ast.Ident); ok {
 					set[id.Name] = true
 				}
+				if se, ok := l.(*ast.SelectorExpr); ok {
+					if id, ok := se.X.(*ast.Ident); ok {
+						set[id.Name] = true
+					}
+				}
+			}
+		}
+		if es, ok := s.(*ast.ExprStmt); ok { // a method call on a variable may update it (receiver-updating leaves)
+			if ce, ok := es.X.(*ast.CallExpr); ok {
+				if f, ok := ce.Fun.(*ast.SelectorExpr); ok {
+					if id, ok := f.X.(*ast.Ident); ok {
+						set[id.Name] = true
+					}
+				}
 			}
 		}
 		if i, ok := s.(*ast.IfStmt); ok {
@@ -667,19 +794,71 @@ func (c *leafCtx) block(stmts []ast.Stmt, tail string, ind string) string {
 	s, rest := stmts[0], stmts[1:]
 	switch st := s.(type) {
 	case *ast.ReturnStmt:
+		if len(st.Results) == 0 && (len(c.named) > 0 || c.recv != "") { // bare return: the named results
+			e := strings.Join(c.named, ", ")
+			if len(c.named) > 1 {
+				e = "(" + e + ")"
+			}
+			return c.result(e)
+		}
 		if len(st.Results) != 1 {
 			c.fail("unsupported return arity")
 			return "0"
 		}
 		e, _ := c.expr(st.Results[0], c.ret)
+		if c.recv != "" {
+			return c.takeBinds(ind) + c.result(e)
+		}
 		if c.panics {
 			return c.takeBinds(ind) + "some (" + e + ")"
 		}
 		return e
 	case *ast.AssignStmt:
-		if len(st.Lhs) == 2 && len(st.Rhs) == 2 && st.Tok == token.ASSIGN || len(st.Lhs) != 1 || len(st.Rhs) != 1 {
+		if len(st.Lhs) >= 2 && len(st.Rhs) == 1 && (st.Tok == token.ASSIGN || st.Tok == token.DEFINE) { // a, b = f(…)
+			if ce, ok := st.Rhs[0].(*ast.CallExpr); ok {
+				e, t := c.expr(ce, "")
+				parts := strings.Split(strings.TrimPrefix(t, "T:"), ",")
+				if strings.HasPrefix(t, "T:") && len(parts) == len(st.Lhs) {
+					var names []string
+					for i, l := range st.Lhs {
+						id, ok := l.(*ast.Ident)
+						if !ok {
+							c.fail("assignment to non-variable")
+							return "0"
+						}
+						c.vars[id.Name] = parts[i]
+						names = append(names, id.Name)
+					}
+					return c.takeBinds(ind) + "let (" + strings.Join(names, ", ") + ") := " + e + "\n" + ind + c.block(rest, tail, ind)
+				}
+			}
 			c.fail("unsupported assignment shape")
 			return "0"
+		}
+		if len(st.Lhs) != 1 || len(st.Rhs) != 1 {
+			c.fail("unsupported assignment shape")
+			return "0"
+		}
+		if se, ok := st.Lhs[0].(*ast.SelectorExpr); ok { // recv.field = e / recv.field op= e
+			rid, ok := se.X.(*ast.Ident)
+			if !ok || rid.Name != c.recv || c.recv == "" {
+				c.fail("assignment to a field of something other than the receiver")
+				return "0"
+			}
+			_, ft := c.expr(se, "")
+			var e string
+			if st.Tok == token.ASSIGN {
+				e, _ = c.expr(st.Rhs[0], ft)
+			} else {
+				op := map[token.Token]token.Token{token.ADD_ASSIGN: token.ADD, token.SUB_ASSIGN: token.SUB, token.MUL_ASSIGN: token.MUL,
+					token.QUO_ASSIGN: token.QUO}[st.Tok]
+				if op == token.ILLEGAL {
+					c.fail("unsupported assignment operator %s", st.Tok)
+					return "0"
+				}
+				e, _ = c.expr(&ast.BinaryExpr{X: se, Op: op, Y: st.Rhs[0]}, ft)
+			}
+			return c.takeBinds(ind) + "let " + c.recv + " : " + leanTypeName(c.vars[c.recv]) + " := { " + c.recv + " with " + se.Sel.Name + " := " + e + " }\n" + ind + c.block(rest, tail, ind)
 		}
 		id, ok := st.Lhs[0].(*ast.Ident)
 		if !ok {
@@ -705,10 +884,67 @@ func (c *leafCtx) block(stmts []ast.Stmt, tail string, ind string) string {
 		c.vars[id.Name] = t
 		return c.takeBinds(ind) + "let " + id.Name + " : " + leanTypeName(t) + " := " + e + "\n" + ind + c.block(rest, tail, ind)
 	case *ast.DeclStmt:
-		return c.block(rest, tail, ind) // `var x T` without value: variables are introduced at first assignment
+		gd, ok := st.Decl.(*ast.GenDecl)
+		if !ok {
+			return c.block(rest, tail, ind)
+		}
+		if gd.Tok == token.CONST { // constants declared inside the body: known to the evaluator from here on
+			for i, sp := range gd.Specs {
+				vs := sp.(*ast.ValueSpec)
+				for j, n := range vs.Names {
+					if j < len(vs.Values) {
+						c.ev.decls[n.Name] = vs.Values[j]
+						c.ev.iotas[n.Name] = i
+						delete(c.ev.memo, n.Name)
+					}
+				}
+			}
+			return c.block(rest, tail, ind)
+		}
+		if !c.zeroVars { // first generations: variables are introduced at their first assignment
+			return c.block(rest, tail, ind)
+		}
+		var sb strings.Builder
+		for _, sp := range gd.Specs {
+			vs := sp.(*ast.ValueSpec)
+			if len(vs.Values) != 0 || vs.Type == nil {
+				c.fail("unsupported var declaration")
+				return "0"
+			}
+			t := c.leanType(vs.Type)
+			z := zeroOf(t)
+			if z == "" {
+				c.fail("var of an unsupported type")
+				return "0"
+			}
+			for _, n := range vs.Names {
+				c.vars[n.Name] = t
+				sb.WriteString("let " + n.Name + " : " + leanTypeName(t) + " := " + z + "\n" + ind)
+			}
+		}
+		return sb.String() + c.block(rest, tail, ind)
 	case *ast.ExprStmt:
 		if isPanic(st) && c.panics {
 			return "none"
+		}
+		if ce, ok := st.X.(*ast.CallExpr); ok && c.recv != "" {
+			if f, ok := ce.Fun.(*ast.SelectorExpr); ok {
+				if id, ok := f.X.(*ast.Ident); ok && id.Name == c.recv {
+					name := strings.TrimPrefix(c.vars[c.recv], "S_") + "." + f.Sel.Name
+					if ln, ok := c.leafOf[name]; ok && c.recvOf[name] && c.retOf[name] == "" {
+						args := []string{c.recv}
+						for _, a := range ce.Args {
+							s, _ := c.expr(a, "")
+							args = append(args, s)
+						}
+						for _, e := range c.extOf[name] {
+							c.addExtern(e, "UInt64")
+							args = append(args, e)
+						}
+						return "let " + c.recv + " : " + leanTypeName(c.vars[c.recv]) + " := (" + ln + " " + strings.Join(args, " ") + ")\n" + ind + c.block(rest, tail, ind)
+					}
+				}
+			}
 		}
 		if ce, ok := st.X.(*ast.CallExpr); ok && len(ce.Args) == 1 {
 			if f, ok := ce.Fun.(*ast.SelectorExpr); ok {
@@ -722,6 +958,9 @@ func (c *leafCtx) block(stmts []ast.Stmt, tail string, ind string) string {
 		c.fail("unsupported expression statement")
 		return "0"
 	case *ast.IfStmt:
+		if isLogOnly(st) {
+			return c.block(rest, tail, ind)
+		}
 		if st.Init != nil {
 			c.fail("if with init statement")
 			return "0"
@@ -830,6 +1069,42 @@ func structFields(c0 *leafCtx, structs map[string][][2]string, name string, st *
 	return fs
 }
 
+// assignsReceiver: the body assigns to a field of the receiver, or calls (as a statement) a
+// translated method of the same receiver that does.
+func assignsReceiver(fd *ast.FuncDecl, recv string, leafOf map[string]string, recvOf map[string]bool, vars map[string]string) bool {
+	found := false
+	ast.Inspect(fd.Body, func(n ast.Node) bool {
+		switch x := n.(type) {
+		case *ast.AssignStmt:
+			for _, l := range x.Lhs {
+				if se, ok := l.(*ast.SelectorExpr); ok {
+					if id, ok := se.X.(*ast.Ident); ok && id.Name == recv {
+						found = true
+					}
+				}
+			}
+		case *ast.IncDecStmt:
+			if se, ok := x.X.(*ast.SelectorExpr); ok {
+				if id, ok := se.X.(*ast.Ident); ok && id.Name == recv {
+					found = true
+				}
+			}
+		case *ast.ExprStmt:
+			if ce, ok := x.X.(*ast.CallExpr); ok {
+				if f, ok := ce.Fun.(*ast.SelectorExpr); ok {
+					if id, ok := f.X.(*ast.Ident); ok && id.Name == recv {
+						if recvOf[strings.TrimPrefix(vars[recv], "S_")+"."+f.Sel.Name] {
+							found = true
+						}
+					}
+				}
+			}
+		}
+		return !found
+	})
+	return found
+}
+
 func emitLeaves(repo string, parsed map[string][]*ast.File, fset *token.FileSet, outPath string) {
 	var sb strings.Builder
 	sb.WriteString("/- GENERATED by harness/extract (leaf translator) from /repo on every run — do not edit.\n")
@@ -901,6 +1176,7 @@ func emitLeaves(repo string, parsed map[string][]*ast.File, fset *token.FileSet,
 		}
 		used := map[string]bool{}
 		leafOf, retOf := map[string]string{}, map[string]string{}
+		extOf, recvOf := map[string][]string{}, map[string]bool{}
 		var defs []string
 		for _, l := range byDir[dir] {
 			fd := findFunc(files, l.fn)
@@ -908,7 +1184,8 @@ func emitLeaves(repo string, parsed map[string][]*ast.File, fset *token.FileSet,
 				withOwner("leaf:"+l.lean, func() { broken("leaf %s.%s: function not found", dir, l.fn) })
 				continue
 			}
-			c := &leafCtx{dir: dir, files: files, ev: ev, structs: structs, vars: map[string]string{}, leafOf: leafOf, retOf: retOf}
+			c := &leafCtx{dir: dir, files: files, ev: ev, structs: structs, vars: map[string]string{}, leafOf: leafOf, retOf: retOf,
+				extOf: extOf, recvOf: recvOf}
 			var params []string
 			addParam := func(n string, t ast.Expr) {
 				lt := c.leanType(t)
@@ -931,29 +1208,94 @@ func emitLeaves(repo string, parsed map[string][]*ast.File, fset *token.FileSet,
 				}
 			}
 			ret := ""
-			if fd.Type.Results != nil && len(fd.Type.Results.List) == 1 {
+			if fd.Type.Results != nil && len(fd.Type.Results.List) == 1 && len(fd.Type.Results.List[0].Names) <= 1 {
 				ret = c.leanType(fd.Type.Results.List[0].Type)
 			}
+			// fifth generation: receiver updates, named / multiple results, zero-valued vars
+			gen5 := false
+			if fd.Recv != nil {
+				if _, ptr := fd.Recv.List[0].Type.(*ast.StarExpr); ptr && assignsReceiver(fd, fd.Recv.List[0].Names[0].Name, leafOf, recvOf, c.vars) {
+					c.recv = fd.Recv.List[0].Names[0].Name
+					gen5 = true
+				}
+			}
+			var prologue string
+			if fd.Type.Results != nil {
+				var rts []string
+				for _, r := range fd.Type.Results.List {
+					rt := c.leanType(r.Type)
+					k := len(r.Names)
+					if k == 0 {
+						k = 1
+					}
+					for i := 0; i < k; i++ {
+						rts = append(rts, rt)
+					}
+					for _, n := range r.Names {
+						gen5 = true
+						c.named = append(c.named, n.Name)
+						c.vars[n.Name] = rt
+						if z := zeroOf(rt); z != "" {
+							prologue += "let " + n.Name + " : " + leanTypeName(rt) + " := " + z + "\n  "
+						} else {
+							c.fail("named result of an unsupported type")
+						}
+					}
+				}
+				if len(rts) > 1 {
+					ret = "T:" + strings.Join(rts, ",")
+				}
+			}
+			c.zeroVars = gen5
 			c.ret = ret
+			if strings.HasPrefix(ret, "T:") {
+				c.ret = ""
+			}
 			c.panics = hasPanic(fd.Body)
-			body := c.block(fd.Body.List, "", "  ")
+			endTail := ""
+			if c.recv != "" && fd.Type.Results == nil {
+				endTail = c.result("")
+			}
+			body := prologue + c.block(fd.Body.List, endTail, "  ")
+			for _, e := range c.externs {
+				params = append(params, "("+e+")")
+			}
 			if c.err != nil {
 				withOwner("leaf:"+l.lean, func() { broken("leaf %s.%s: %v", dir, l.fn, c.err) })
 				continue
 			}
 			sig := "def " + l.lean + " " + strings.Join(params, " ")
-			if ret != "" && c.panics {
-				sig += " : Option " + leanTypeName(ret)
-			} else if ret != "" {
-				sig += " : " + leanTypeName(ret)
+			rtName := leanTypeName(ret)
+			if strings.HasPrefix(ret, "T:") {
+				var ps []string
+				for _, t := range strings.Split(strings.TrimPrefix(ret, "T:"), ",") {
+					ps = append(ps, leanTypeName(t))
+				}
+				rtName = "(" + strings.Join(ps, " × ") + ")"
 			}
-			if c.panics && ret == "" {
+			if c.recv != "" {
+				if ret == "" {
+					rtName = leanTypeName(c.vars[c.recv])
+				} else {
+					rtName = "(" + leanTypeName(c.vars[c.recv]) + " × " + rtName + ")"
+				}
+			}
+			if (ret != "" || c.recv != "") && c.panics {
+				sig += " : Option " + rtName
+			} else if ret != "" || c.recv != "" {
+				sig += " : " + rtName
+			}
+			if c.panics && ret == "" && c.recv == "" {
 				c.fail("panic in a function without a single translated result type")
 			}
 			pos := fset.Position(fd.Pos())
 			defs = append(defs, fmt.Sprintf("/-- %s: %s (line %d) -/\n%s :=\n  %s\n", dir, l.fn, pos.Line, sig, body))
 			leafOf[l.fn] = l.lean
 			retOf[l.fn] = ret
+			recvOf[l.fn] = c.recv != ""
+			for _, e := range c.externs {
+				extOf[l.fn] = append(extOf[l.fn], strings.SplitN(e, " : ", 2)[0])
+			}
 			if fd.Recv == nil {
 				pkgName := dir[strings.LastIndex(dir, "/")+1:]
 				globalLeaf[pkgName+"."+l.fn] = [2]string{l.lean, ret}
